@@ -616,6 +616,9 @@ pub fn run(ctx: &RunCtx) -> i32 {
         let mut g = Rng::new(ctx.seed ^ 0xc04);
         for _ in 0..6 {
             corpus.push(c08::gen_upload(&mut g, &secrets, true).req);
+            // correctly chunk-signed streaming bodies addressed to operations that read a buffered XML / string body
+            let t = *g.pick(&[("PUT", "?tagging"), ("PUT", "?policy"), ("PUT", "?acl"), ("PUT", "?lifecycle"), ("PUT", "?cors"), ("PUT", "/k?tagging"), ("PUT", "/k?legal-hold"), ("PUT", "/k?retention"), ("POST", "?delete"), ("POST", "/k?uploadId=u1"), ("POST", "/k?restore"), ("POST", "/k?select&select-type=2"), ("PUT", "")]);
+            corpus.push(c08::gen_upload_to(&mut g, &secrets, true, Some(t)).req);
             corpus.push(c10::gen_form_pub(&mut g, &secrets).0.request(None));
         }
         // signed variants
